@@ -21,6 +21,47 @@ IO.t_eof = PEV.t_eof
 IO.h_toio = PEV.h_toio
 IO.h_fromio = PEV.h_fromio
 D.h_block = PEV.h_block
+import r_pe2 as PE2
+C.h_accessors = PE2.h_accessors
+
+
+def _t_bits(F, R):
+    """CONNECT flags, v5 subscription options, v3 requested-QoS byte and CONNACK flags: encoder and decoder
+    evaluated over their complete finite domains against the specification's bit layouts."""
+    PE2.t_bits_connect(F, R)
+    PE2.t_bits_subopts(F, R)
+    PE2.h_connack_flags(F, R)
+
+
+_t_bits.__name__ = "t_bits"
+B.t_bits = _t_bits
+
+import r_pollpe as PP
+
+
+def _varint_readers(F, R):
+    """Both variable-byte-integer readers (standalone and poll header state machine) have the specified
+    transfer function (so they agree with each other)."""
+    PP.poll_header_rules(F, R)
+    PP.varint_reader_rules(F, R)
+
+
+_varint_readers.__name__ = "t_varint_readers"
+T.t_varint_readers = _varint_readers
+T.t_varint_writer = PP.varint_writer_rules
+
+
+def _poll_complete(F, R):
+    PP.poll_complete_rules(F, R)
+    PP.poll_body_rules(F, R)
+
+
+_poll_complete.__name__ = "poll_rules"
+# the shape-matching poll rules are superseded by the evaluated transfer-function rules
+PL.h_total = _poll_complete
+PL.h_exactfill = _poll_complete
+PL.h_cap = _poll_complete
+PL.h_pending = PP.poll_header_rules
 
 PROPS = {}
 
